@@ -1,4 +1,5 @@
 import TartModel.Impl.Directives
+import TartModel.Proofs.DirLitVar
 /-
   C13 — directive hooks wrap their target exactly once, nested in declaration order.
 
@@ -11,8 +12,7 @@ import TartModel.Impl.Directives
   input-object hooks → argument hooks → field hooks (query-side around schema-side) → resolver →
   type-level output hooks → enum-value hooks / serialisation).  `literal_eq_variable_*` state that
   an input runs through the same hooks with the same results whether it is written as a literal
-  or supplied through a variable (leaf types; the general statement is checked by correspondence only:
-  PARTIAL).  Tied to the code by the correspondence check harness/c13.py (tagging directives).
+  or supplied through a variable (`literal_eq_variable`: every input type, nullable argument positions).  Tied to the code by the correspondence check harness/c13.py (tagging directives).
 -/
 namespace Tart.C13
 open Tart Tart.Dir
@@ -262,6 +262,16 @@ theorem literal_eq_variable_enum (n : Nat) (S : DSchema) (ad : InField) (tn : St
   congr 1
   funext w
   simp [coerceArgument, argHasValue, argIsNull, argProvided, argHooks, lookup, bind_ret_left, ht, TypeRef.isNonNull]
+
+/-- literal = variable for EVERY input type (lists, single value for a list, enums, input objects with omitted
+    fields and SDL defaults, any nesting): the same value reaches the resolver and the same hooks run in the same
+    order with the same values (`Proofs/DirLitVar.lean`: `lit_in_all` — literal coercion of a constant literal IS the
+    JSON coercion of the value it denotes, as results WITH their hook events — and its argument-level corollary).
+    Stated for nullable argument types; `literal_eq_variable_scalar/enum` above cover the leaf cases directly. -/
+theorem literal_eq_variable (n : Nat) (S : DSchema) (hD : DefaultsNat S) (ad : InField) (node : Value) (j : DV) (vars0 : Vars)
+    (hnat : NatLitD S ad.type node) (hn : node ≠ .null) (hj : jsonD node = some j) (hnull : ad.type.isNonNull = false) :
+    argByLit n S ad node vars0 = argByVar n S ad j :=
+  literal_eq_variable_general n S hD ad node j vars0 hnat hn hj hnull
 
 /-! ### non-vacuity: a concrete chain -/
 def I0 : List DImpl := [⟨"a", ["in", "arg", "fld", "out"], true⟩, ⟨"c", ["fld"], true⟩, ⟨"l", ["in"], false⟩]
